@@ -63,16 +63,28 @@ func funTable(user []*ref.Fun) *ref.FunTable {
 
 // RunProg runs the reference (if an expression is given) and the real back
 // ends on one case. It never panics; host panics are observations.
-func RunProg(pc *ProgCase) *ProgObs {
-	o := &ProgObs{Case: pc}
+func RunProg(pc *ProgCase) *ProgObs { return RunProgMulti(pc, nil)[0] }
+
+// RunProgMulti compiles once per back end and executes on pc.Env and then on
+// every further environment (equal types, other values / layouts): one
+// observation per environment, the compiled code shared between them.
+func RunProgMulti(pc *ProgCase, more []*bridge.Env) []*ProgObs {
+	envs := append([]*bridge.Env{pc.Env}, more...)
+	obs := make([]*ProgObs, len(envs))
 	ft := funTable(pc.User)
-	if pc.E != nil {
-		e := pc.E
-		o.RefType, o.RefErr = ref.Check(e, pc.Env.T, ft)
-		if o.RefErr == nil {
-			ev := &ref.Evaluator{Env: pc.Env.V, FT: ft, Loc: time.Local}
-			o.RefOut = ev.Eval(e)
-			o.RefTrace, o.RefPrint = ev.Trace, ev.Printed
+	for i, env := range envs {
+		c2 := *pc
+		c2.Env = env
+		o := &ProgObs{Case: &c2}
+		obs[i] = o
+		if pc.E != nil {
+			e := pc.E.Clone()
+			o.RefType, o.RefErr = ref.Check(e, env.T, ft)
+			if o.RefErr == nil {
+				ev := &ref.Evaluator{Env: env.V, FT: ft, Loc: time.Local}
+				o.RefOut = ev.Eval(e)
+				o.RefTrace, o.RefPrint = ev.Trace, ev.Printed
+			}
 		}
 	}
 	backs := pc.Back
@@ -80,8 +92,6 @@ func RunProg(pc *ProgCase) *ProgObs {
 		backs = []bridge.Backend{bridge.VM, bridge.VMCall, bridge.Closure, bridge.Interp}
 	}
 	for _, b := range backs {
-		bo := &BackObs{}
-		o.Back[b] = bo
 		sess := bridge.NewSession(pc.User)
 		var c *bridge.Compiled
 		var cerr *bridge.CompileErr
@@ -103,41 +113,54 @@ func RunProg(pc *ProgCase) *ProgObs {
 		} else {
 			c, cerr = sess.Compile(pc.Src, pc.Env.TypeEnv(), b)
 		}
-		if cerr != nil {
-			bo.CompErr = cerr
-			continue
-		}
-		bo.Type, bo.TypeErr = bridge.FromType(c.Type)
-		if b == bridge.VM {
+		var bc *bridge.BCInfo
+		var bcErr error
+		if cerr == nil && b == bridge.VM {
 			// bytecode view of what the VM will run (hook H2)
 			func() {
 				defer func() {
 					if r := recover(); r != nil {
-						o.BCErr = fmt.Errorf("VerifCompile panicked: %v", r)
+						bcErr = fmt.Errorf("VerifCompile panicked: %v", r)
 					}
 				}()
 				p := vm.VerifCompile(c.Tree, sess.VEnv)
-				o.BC, o.BCErr = bridge.VerifyProgram(p)
+				bc, bcErr = bridge.VerifyProgram(p)
 			}()
 		}
-		if skipExecOnBadBytecode && o.BCErr != nil && (b == bridge.VM || b == bridge.VMCall) {
-			// C11 only: code that failed verification is not executed
-			bo.Skipped = "bytecode failed verification"
-			continue
-		}
-		bo.Res = c.Exec(pc.Env.ValEnv())
-		if bo.Res.Class == bridge.OValue {
-			bo.RV, bo.Ill = bridge.FromVal(bo.Res.Val, c.Type)
+		for i, env := range envs {
+			o := obs[i]
+			bo := &BackObs{}
+			o.Back[b] = bo
+			if b == bridge.VM {
+				o.BC, o.BCErr = bc, bcErr
+			}
+			if cerr != nil {
+				bo.CompErr = cerr
+				continue
+			}
+			bo.Type, bo.TypeErr = bridge.FromType(c.Type)
+			if skipExecOnBadBytecode && obs[0].BCErr != nil && (b == bridge.VM || b == bridge.VMCall) {
+				// C11 only: code that failed verification is not executed
+				bo.Skipped = "bytecode failed verification"
+				continue
+			}
+			bo.Res = c.Exec(env.ValEnv())
+			if bo.Res.Class == bridge.OValue {
+				bo.RV, bo.Ill = bridge.FromVal(bo.Res.Val, c.Type)
+			}
 		}
 	}
-	// the call-threaded loop gives up after 1024 dispatches (known finding
-	// D15): such executions are excluded from every comparison but C03's
-	if vc := o.Back[bridge.VMCall]; vc != nil && vc.CompErr == nil && vc.Res.Class == bridge.OLimit {
-		if o.BC != nil && o.BC.MaxBody >= 1024 {
-			vc.Skipped = fmt.Sprintf("callthread exec limit with an activation of %d instructions", o.BC.MaxBody)
+	for _, o := range obs {
+		o.BC, o.BCErr = obs[0].BC, obs[0].BCErr
+		// the call-threaded loop gives up after 1024 dispatches (known finding
+		// D15): such executions are excluded from every comparison but C03's
+		if vc := o.Back[bridge.VMCall]; vc != nil && vc.CompErr == nil && vc.Res.Class == bridge.OLimit {
+			if o.BC != nil && o.BC.MaxBody >= 1024 {
+				vc.Skipped = fmt.Sprintf("callthread exec limit with an activation of %d instructions", o.BC.MaxBody)
+			}
 		}
 	}
-	return o
+	return obs
 }
 
 func (o *ProgObs) Accepted() bool {
